@@ -75,7 +75,29 @@ func (w *World) appOp(task string, o AppOp) {
 			w.rec(o.Sess, "app-skip", "send "+o.ID+": no session yet", 0)
 			return
 		}
-		w.appSend(task, o.Sess, sock, o)
+		w.appSend(task, o.Sess, sock, o, nil)
+	case "broadcast":
+		// one message for every session there is, the way socket.io's adapter broadcasts: the packet options (and the
+		// frame pre-encoded in them) are built once and the same object goes to every session's Send
+		w.mu.Lock()
+		var targets []string
+		for _, a := range sortedKeys(w.Socks) {
+			if sp := w.specOf(a); sp != nil && len(sp.Raw) == 0 {
+				targets = append(targets, a)
+			}
+		}
+		w.mu.Unlock()
+		if len(targets) >= 2 {
+			w.probe("broadcast_shared_options")
+		}
+		shared := map[int]*packet.Options{}
+		for _, a := range targets {
+			sock := w.sockOf(a)
+			if sock == nil {
+				continue
+			}
+			w.appSend(task, a, sock, o, shared)
+		}
 	case "close", "close-discard":
 		sock := w.sockOf(o.Sess)
 		if sock == nil {
@@ -101,16 +123,27 @@ func (w *World) appOp(task string, o AppOp) {
 	}
 }
 
-func (w *World) appSend(task, alias string, sock engine.Socket, o AppOp) {
+func (w *World) appSend(task, alias string, sock engine.Socket, o AppOp, shared map[int]*packet.Options) {
 	data := payloadForC(o.ID, o.Size, o.Chars)
 	var opts *packet.Options
-	switch o.Opt {
-	case "nocompress":
-		opts = &packet.Options{Compress: false}
-	case "preencoded":
-		// the frame the application pre-computed for WebSocket/WebTransport:
-		// exactly what the transport would have produced for this packet
-		opts = &packet.Options{Compress: true, WsPreEncodedFrame: w.preEncode(sock, data, o.Binary)}
+	if so, ok := shared[sock.Protocol()]; ok {
+		opts = so
+	} else {
+		switch o.Opt {
+		case "nocompress":
+			opts = &packet.Options{Compress: false}
+		case "preencoded":
+			// the frame the application pre-computed for WebSocket/WebTransport:
+			// exactly what the transport would have produced for this packet
+			opts = &packet.Options{Compress: true, WsPreEncodedFrame: w.preEncode(sock, data, o.Binary)}
+		case "":
+			if shared != nil {
+				opts = &packet.Options{Compress: true}
+			}
+		}
+		if shared != nil {
+			shared[sock.Protocol()] = opts
+		}
 	}
 	var cb engine.SendCallback
 	if o.CB {
@@ -215,3 +248,13 @@ func (w *World) reentrant(alias string, sock engine.Socket, event string) {
 }
 
 func isMsgPacketString(s string) bool { return strings.HasPrefix(s, "message|") }
+
+// specOf finds a client's spec by alias (no locking: the scenario is read-only during a run).
+func (w *World) specOf(name string) *ClientSpec {
+	for i := range w.Sc.Clients {
+		if w.Sc.Clients[i].Name == name {
+			return &w.Sc.Clients[i]
+		}
+	}
+	return nil
+}
